@@ -144,6 +144,10 @@ class Indicator(_DomainObject):
     ])
 
     def _check_object_constraints(self):
+        if not self.get('pattern'):
+            # the pattern validator itself fails on an empty string
+            raise InvalidValueError(self.__class__, 'pattern', "must not be empty.")
+
         errors = run_validator(self.get('pattern'), '2.0')
         if errors:
             raise InvalidValueError(self.__class__, 'pattern', str(errors[0]))
